@@ -58,8 +58,8 @@ pub proof fn lemma_last_notification_wins(states: Seq<St>, notes: Seq<Note>, u: 
     requires chain(states, notes), 0 <= j < notes.len(), about(notes[j]) == Some(u), no_later_note_about(notes, u, j),
     ensures
         // a didOpen / didChange of a processed document (known to the analysis or a workspace file, the handlers' `should_process`): its text
-        (notes[j] matches Note::Open(_, t) && accepts(states[j], u)) ==> last_for(states.last().applied, u) == Some(Some(t)) /*@C27.sequence.last-notification-wins*/,
-        (notes[j] matches Note::Change(_, t) && accepts(states[j], u)) ==> last_for(states.last().applied, u) == Some(Some(t)) /*@C27.sequence.last-notification-wins*/,
+        notes[j] matches Note::Open(_, t) ==> accepts(states[j], u) ==> last_for(states.last().applied, u) == Some(Some(t)) /*@C27.sequence.last-notification-wins*/,
+        notes[j] matches Note::Change(_, t) ==> accepts(states[j], u) ==> last_for(states.last().applied, u) == Some(Some(t)) /*@C27.sequence.last-notification-wins*/,
         // ... and the analysis knows the document
         (notes[j] is Open || notes[j] is Change) && accepts(states[j], u) ==> states.last().known.contains(u),
         // a didClose of a document that is not on disk / belongs to no workspace: removed, the analysis does not know it any more
